@@ -12,6 +12,7 @@
 -/
 import Sbepp.Lemmas.Cursor
 import Sbepp.Lemmas.CursorTie
+import Sbepp.Lemmas.GroupCursorTie
 
 namespace Sbepp.Properties.C04
 open Sbepp Sbepp.Schema Sbepp.Gen Sbepp.Cursor Sbepp.Rt.Cursor Sbepp.Spec.CursorProtocol
@@ -480,5 +481,77 @@ example : stepFieldX .init ⟨0, 8, 9, some 37⟩ exBuf (some 8) ⟨1, 11, 1, fa
     the tie also the model): the cursor is simply set to the end of the block -/
 example : Sbepp.Extracted.Cursor.S.get_last_value ⟨0, 8, 9, none⟩ exBuf none 0 8 2 = .ok ⟨.void, some 17, exBuf⟩ := by
   decide
+
+/-! ### cursor ranges: the same statements about the member functions as translated from the current `sbepp.hpp`
+
+  `Sbepp.Extracted.Group.{CFlat, CNested}.{cursor_range, cursor_subrange1, cursor_subrange2, cursor_begin,
+  cursor_end, visit_children}`, `CursorRange.*`, `InputIt.*`, `Entry.*` are regenerated from the C++ text of
+  `flat_group_base`, `nested_group_base`, `cursor_range`, `input_iterator`, `entry_base` on every check run
+  (`extract/methods_group.py`); `Lemmas/GroupCursorTie.lean` proves each of them equal to the hand model
+  (`CFlat.cursor_subrange1_tie`, `InputIt.deref_tie` …; `mkRangeFlatX` / `mkRangeNestedX` = `mkRange`). -/
+
+open Sbepp.Lemmas.GroupTie.C
+open Sbepp.Extracted.Group
+open Sbepp.Rt.Cursor.GroupDsl (forRange)
+
+/-- **cursor_subrange_spec** for the range members of both group classes as translated -/
+theorem cursor_subrange_spec_extracted (bo : ByteOrder) (buf : List Nat) (e : Nat) (dim : Dim) (p : Nat) (k : RangeKind)
+    (hin : p + dim.size ≤ e) :
+    (mkRangeFlatX bo buf (some e) dim p k
+      = match rangeSpec (rd bo buf (p + dim.numOff) dim.numSize) k with
+        | some (s, l) => .ok ⟨rd bo buf (p + dim.blOff) dim.blSize, s, l⟩
+        | none => .error .precondition)
+    ∧ (mkRangeNestedX bo buf (some e) dim p k
+      = match rangeSpec (rd bo buf (p + dim.numOff) dim.numSize) k with
+        | some (s, l) => .ok ⟨rd bo buf (p + dim.blOff) dim.blSize, s, l⟩
+        | none => .error .precondition) := by
+  rw [mkRangeFlatX_eq, mkRangeNestedX_eq]
+  exact ⟨cursor_subrange_spec bo buf e dim p k hin, cursor_subrange_spec bo buf e dim p k hin⟩
+
+theorem cursor_subrange_spec_unchecked_extracted (bo : ByteOrder) (buf : List Nat) (dim : Dim) (p : Nat) (k : RangeKind)
+    (s l : Nat) (h : rangeSpec (rd bo buf (p + dim.numOff) dim.numSize) k = some (s, l)) :
+    mkRangeFlatX bo buf none dim p k = .ok ⟨rd bo buf (p + dim.blOff) dim.blSize, s, l⟩
+    ∧ mkRangeNestedX bo buf none dim p k = .ok ⟨rd bo buf (p + dim.blOff) dim.blSize, s, l⟩ := by
+  rw [mkRangeFlatX_eq, mkRangeNestedX_eq]
+  exact ⟨cursor_subrange_spec_unchecked bo buf dim p k s l h, cursor_subrange_spec_unchecked bo buf dim p k s l h⟩
+
+/-- **cursor_range_iteration** for the range-`for` loop written with the translated `begin()` / `end()` of
+    `cursor_range` and `!=` / `++` / `*` of `input_iterator` (`w` = width of the index type; the range's start and
+    length are values of that type, `fuel` does not limit the loop): the loop over the range `[s, s + len)`
+    whose body traverses the entry ends with the cursor at the random-access position of entry `s + len` -/
+theorem cursor_range_iteration_extracted (bo : ByteOrder) (buf : List Nat) (dim : Dim) (l : GLevel) (endp : Option Nat)
+    (p s len w fuel : Nat) (hs : s < 2 ^ w) (hlen : len < 2 ^ w) (hfuel : len ≤ fuel) (hg : GoodL 0 l)
+    (hf : ∀ i, s ≤ i → i < s + len →
+      FitL bo buf l (entryPos bo buf (.mk dim l.erase) p i) (rd bo buf (p + dim.blOff) dim.blSize))
+    (hin : Inside endp (entryPos bo buf (.mk dim l.erase) p (s + len))) :
+    forRange InputIt.ne (InputIt.inc w) (InputIt.deref l.emptyCtor endp)
+        (CursorRange.end_ w ⟨rd bo buf (p + dim.blOff) dim.blSize, s, len⟩)
+        (fun entry c (v : Unit) => do
+          let (t1, c, v) ← (match travL bo buf l entry c with
+                            | .error e => .error e
+                            | .ok c'' => .ok (false, c'', v) : Out (Bool × Option Nat × Unit))
+          if t1 then
+            return (some true, c, v)
+          return (none, c, v)) fuel
+        (CursorRange.begin ⟨rd bo buf (p + dim.blOff) dim.blSize, s, len⟩)
+        (some (entryPos bo buf (.mk dim l.erase) p s)) ()
+      = .ok (none, some (entryPos bo buf (.mk dim l.erase) p (s + len)), ()) := by
+  refine Eq.trans (forRange_iterE w l.emptyCtor endp ⟨rd bo buf (p + dim.blOff) dim.blSize, s, len⟩ hs hlen
+    (fun ev c => travL bo buf l ev c) fuel hfuel _ ()) ?_
+  have h := cursor_range_iteration bo buf dim l endp p s len hg hf hin
+  have h' : ∀ (x : Out (Option Nat)) (q : Option Nat), x = .ok q →
+      (match x with
+       | .error e => .error e
+       | .ok c' => .ok ((none : Option Bool), c', ()) : Out (Option Bool × Option Nat × Unit)) = .ok (none, q, ()) := by
+    intro x q hx; subst hx; rfl
+  exact h' _ _ h
+
+/-- non-vacuity on the translated member functions: a group header `blockLength = 2, numInGroup = 3` at offset 0 -/
+example : Sbepp.Extracted.Group.CFlat.cursor_subrange1 .little [2, 0, 3, 0, 9, 9, 9, 9, 9, 9] (some 10) ⟨4, 0, 2, 2, 2, []⟩ 0 1
+    = .ok ⟨2, 1, 2⟩ := by decide
+example : Sbepp.Extracted.Group.CNested.cursor_subrange2 .little [2, 0, 3, 0, 9, 9, 9, 9, 9, 9] (some 10) ⟨4, 0, 2, 2, 2, []⟩ 0 1 3
+    = .error .precondition := by decide
+example : Sbepp.Extracted.Group.CFlat.cursor_subrange1 .little [2, 0, 3, 0, 9, 9, 9, 9, 9, 9] (some 10) ⟨4, 0, 2, 2, 2, []⟩ 0 3
+    = .error .precondition := by decide
 
 end Sbepp.Properties.C04
